@@ -823,14 +823,22 @@ func (rs *s3ClientStorage) TransitionObjectStorageClass(ctx context.Context, buc
 		return storage.ErrNotImplemented
 	}
 
+	// The website redirect location is never carried over by a copy, so it has
+	// to be read first and sent along again.
+	object, err := rs.HeadObject(ctx, bucketName, key, nil)
+	if err != nil {
+		return err
+	}
+
 	// A remote S3 backend changes an object's storage class via an in-place
 	// self copy that keeps the existing metadata.
 	input := &s3.CopyObjectInput{
-		Bucket:            aws.String(bucketName.String()),
-		Key:               aws.String(key.String()),
-		CopySource:        aws.String(copySourceValue(bucketName, key, nil)),
-		MetadataDirective: types.MetadataDirectiveCopy,
-		StorageClass:      types.StorageClass(targetStorageClass),
+		Bucket:                  aws.String(bucketName.String()),
+		Key:                     aws.String(key.String()),
+		CopySource:              aws.String(copySourceValue(bucketName, key, nil)),
+		MetadataDirective:       types.MetadataDirectiveCopy,
+		StorageClass:            types.StorageClass(targetStorageClass),
+		WebsiteRedirectLocation: object.Metadata.WebsiteRedirectLocation,
 	}
 	if opts != nil && opts.IfMatchETag != nil {
 		input.CopySourceIfMatch = opts.IfMatchETag
